@@ -59,6 +59,12 @@ def translate(ops):
         elif k in ("stop", "kill", "err", "panic"):
             a = op[1]
             hops.append(f"{k} {a}")
+            if acts[a]["phase"] == "pre":
+                # kill while pre_start is parked: the start fails ("killed during startup")
+                acts[a]["go"] = False
+                labels += [f"LStart {a} false", f"LStep {a}", f"LStep {a}", f"LFinish {a}"]
+                finished(a)
+                continue
             labels += [f"LStop {a}", f"LStep {a}", f"LStep {a}"]
             if k == "stop" and acts[a]["ps"]:
                 acts[a]["phase"] = "psparked"
@@ -150,6 +156,12 @@ def gen_history(rng):
             if not ok and holder.get(acts[a]["name"]) == a:
                 del holder[acts[a]["name"]]
             ops.append(["go", a, ok])
+        elif r < 0.44 and pre:
+            a = rng.choice(pre)
+            acts[a]["phase"] = "stopped"
+            if holder.get(acts[a]["name"]) == a:
+                del holder[acts[a]["name"]]
+            ops.append(["kill", a])
         elif r < 0.58 and run:
             a = rng.choice(run)
             # (a remote-id handle cannot be sent a plain message: only stop/kill for those)
